@@ -128,6 +128,7 @@ type retired struct {
 }
 
 type Tr struct {
+	dead    bool // an API call failed unexpectedly: logged as ApiError (no spec action explains it), rest of the trace skipped
 	retired []retired
 	svc    *Svc
 	t      *rt.Trace
@@ -148,6 +149,14 @@ func (s *Svc) Begin(t *rt.Trace) *Tr {
 }
 
 func (tr *Tr) real(topic string) string { return topic + "_" + tr.sfx }
+
+// apiError records an error returned by the service API.  The specification has no action for it:
+// the model says the call must succeed (e.g. registering a handler id that is free), so TLC rejects
+// the trace at this line - the error is the observable misbehaviour, not a harness failure.
+func (tr *Tr) apiError(call string, err error) {
+	tr.t.Event("ApiError", rt.M{"call": call, "err": err.Error()})
+	tr.dead = true
+}
 func (tr *Tr) model(topic string) string {
 	return strings.TrimSuffix(topic, "_"+tr.sfx)
 }
@@ -208,6 +217,9 @@ func cfgFields(h string, c Cfg) rt.M {
 }
 
 func (tr *Tr) Register(h string, c Cfg) {
+	if tr.dead {
+		return
+	}
 	st := &hstate{cfg: c}
 	if c.Kind == "rec" && c.Match == "none" {
 		// anonymous handler, as a task's alert node registers them
@@ -216,7 +228,8 @@ func (tr *Tr) Register(h string, c Cfg) {
 		tr.svc.S.RegisterAnonHandler(tr.real(c.Topic), st.rec)
 	} else {
 		if err := tr.svc.S.RegisterHandlerSpec(tr.spec(h, c)); err != nil {
-			rt.Fatalf("c09: RegisterHandlerSpec: %v", err)
+			tr.apiError("RegisterHandlerSpec "+h, err)
+			return
 		}
 		if c.Kind == "rec" {
 			st.rec = tr.svc.talk.last
@@ -246,11 +259,15 @@ func (tr *Tr) seenOf(st *hstate) []any {
 }
 
 func (tr *Tr) Deregister(h string) {
+	if tr.dead {
+		return
+	}
 	st := tr.hs[h]
 	if st.anon {
 		tr.svc.S.DeregisterAnonHandler(tr.real(st.cfg.Topic), st.rec)
 	} else if err := tr.svc.S.DeregisterHandlerSpec(tr.real(st.cfg.Topic), h); err != nil {
-		rt.Fatalf("c09: DeregisterHandlerSpec: %v", err)
+		tr.apiError("DeregisterHandlerSpec "+h, err)
+		return
 	}
 	tr.quiesce()
 	delete(tr.hs, h)
@@ -262,6 +279,9 @@ func (tr *Tr) Deregister(h string) {
 
 // Replace = UpdateHandlerSpec with the same id (spec-based handlers only).
 func (tr *Tr) Replace(h string, c Cfg) {
+	if tr.dead {
+		return
+	}
 	st := tr.hs[h]
 	if st.anon || (c.Kind == "rec" && c.Match == "none") {
 		// anonymous handlers have no update; model it as the two API calls it takes
@@ -270,7 +290,8 @@ func (tr *Tr) Replace(h string, c Cfg) {
 		return
 	}
 	if err := tr.svc.S.UpdateHandlerSpec(tr.spec(h, st.cfg), tr.spec(h, c)); err != nil {
-		rt.Fatalf("c09: UpdateHandlerSpec: %v", err)
+		tr.apiError("UpdateHandlerSpec "+h, err)
+		return
 	}
 	tr.quiesce()
 	ns := &hstate{cfg: c}
@@ -287,6 +308,9 @@ func (tr *Tr) Collect(topic, id string, lvl int, k int) { tr.CollectTag(topic, i
 
 // CollectTag collects an event that carries tag host=<tag> ("none": no tag at all).
 func (tr *Tr) CollectTag(topic, id string, lvl int, k int, tag string) {
+	if tr.dead {
+		return
+	}
 	ev := alert.Event{Topic: tr.real(topic), State: alert.EventState{ID: id, Level: alert.Level(lvl),
 		Time: rt.DefaultTime.T(k), Message: fmt.Sprintf("m%d", k)}}
 	f := rt.M{"topic": topic, "id": id, "lvl": lvl}
@@ -306,6 +330,9 @@ func (tr *Tr) CollectTag(topic, id string, lvl int, k int, tag string) {
 // handler is removed and the new one registered; the old recorder is kept as "retired" and must
 // never be handed another event.
 func (tr *Tr) Rename(old, new string, c Cfg) {
+	if tr.dead {
+		return
+	}
 	st := tr.hs[old]
 	if st.anon || (c.Kind == "rec" && c.Match == "none") {
 		tr.Deregister(old)
@@ -313,7 +340,8 @@ func (tr *Tr) Rename(old, new string, c Cfg) {
 		return
 	}
 	if err := tr.svc.S.UpdateHandlerSpec(tr.spec(old, st.cfg), tr.spec(new, c)); err != nil {
-		rt.Fatalf("c09: UpdateHandlerSpec(rename): %v", err)
+		tr.apiError("UpdateHandlerSpec "+old+">"+new, err)
+		return
 	}
 	tr.quiesce()
 	ns := &hstate{cfg: c}
@@ -333,6 +361,9 @@ func (tr *Tr) Rename(old, new string, c Cfg) {
 // re-registers the handlers the service has on record for it.  Used with events that are all non-OK
 // and a persisting service, so that the restored state equals the state before the close.
 func (tr *Tr) CloseRestore(topic string) {
+	if tr.dead {
+		return
+	}
 	if err := tr.svc.S.CloseTopic(tr.real(topic)); err != nil {
 		rt.Fatalf("c09: CloseTopic: %v", err)
 	}
@@ -341,6 +372,9 @@ func (tr *Tr) CloseRestore(topic string) {
 
 // Obs records everything the API reports about both topics and what every recorder has seen.
 func (tr *Tr) Obs() {
+	if tr.dead {
+		return
+	}
 	state := rt.M{}
 	for _, t := range tr.topics {
 		o := rt.M{"lvl": 0, "collected": 0, "cur": []any{}, "es": []any{[]any{}, []any{}, []any{}, []any{}}}
@@ -394,6 +428,21 @@ func (tr *Tr) Obs() {
 
 // End tears the trace down (publishers first so nothing is in flight).
 func (tr *Tr) End() {
+	if tr.dead {
+		// best-effort cleanup; nothing more is logged for this trace
+		for h, st := range tr.hs {
+			if st.anon {
+				tr.svc.S.DeregisterAnonHandler(tr.real(st.cfg.Topic), st.rec)
+			} else {
+				tr.svc.S.DeregisterHandlerSpec(tr.real(st.cfg.Topic), h)
+			}
+		}
+		for _, t := range tr.topics {
+			tr.svc.S.DeleteTopic(tr.real(t))
+		}
+		ctxs.Delete(tr.sfx)
+		return
+	}
 	for _, kind := range []string{"publish", "agg", "rec"} {
 		for _, h := range rt.SortedKeys(tr.hs) {
 			if tr.hs[h].cfg.Kind == kind {
